@@ -149,6 +149,44 @@ def syncOrd (ord : Nat → List (Nat × List Item) → List (Nat × List Item)) 
 
 def isSynced (st : RankState) : Bool := st.remSeq == st.idxSeq
 
+/-! ### a user-supplied numberer object with internal state
+
+`sync(T1& numberer, bool)` takes the numberer by reference and calls `numberer(global)` exactly when an index is added
+to the index set; a numberer may have state (a counter handing out consecutive local indices, a free list ...).
+`nm s g = (local number, next state)`.  The functions below are `receiveItem … sync` with the numberer state
+threaded through the receives in processing order; `Proofs/C13Shape.lean` shows that they coincide with the pure
+versions for a numberer without state and, for any numberer, produce the same index set (global, attribute) pairs and
+the same remote index lists. -/
+
+def receiveItemS {σ : Type} (nm : σ → Int → Nat × σ) (me src : Nat) (x : RankState × σ) (it : Item) : RankState × σ :=
+  match it.pairs.lookup me with
+  | none => x
+  | some a =>
+    let others := (src, it.srcAttr) :: it.pairs.filter (fun y => y.1 != me)
+    let remote' := others.foldl (fun r y => insertRemote y.1 ⟨it.g, a, y.2⟩ r) x.1.remote
+    if hasKey x.1.idx it.g a then ({ x.1 with remote := remote' }, x.2)
+    else
+      let r := nm x.2 it.g
+      ({ x.1 with idx := insertIdx ⟨it.g, a, r.1⟩ x.1.idx, remote := remote' }, r.2)
+
+def receiveMsgS {σ : Type} (nm : σ → Int → Nat × σ) (me : Nat) (x : RankState × σ) (m : Nat × List Item) : RankState × σ :=
+  m.2.foldl (receiveItemS nm me m.1) x
+
+def recvAllS {σ : Type} (nm : σ → Int → Nat × σ) (me : Nat) (x : RankState × σ) (msgs : List (Nat × List Item)) :
+    RankState × σ :=
+  msgs.foldl (receiveMsgS nm me) x
+
+def syncRankS {σ : Type} (nm : σ → Int → Nat × σ) (w : World) (q : Nat) (x : RankState × σ) : RankState × σ :=
+  let r := recvAllS nm q x (inbox w q)
+  (finish r.1, r.2)
+
+/-- the collective operation (fixed processing order) when rank `q` uses a numberer object in state `ss[q]` -/
+def syncS {σ : Type} (nm : σ → Int → Nat × σ) (w : World) (ss : List σ) : List (RankState × σ) :=
+  (w.zip ss).mapIdx fun q x => syncRankS nm w q x
+
+/-- the counting numberer used by the harness: hands out `base, base+1, …` -/
+def countingNumberer (base : Nat) : Nat → Int → Nat × Nat := fun c _ => (base + c, c + 1)
+
 /-- `repairLocalIndexPointers`: position of the pair `(global, attribute)` in the index set -/
 def resolve (idx : List IdxEntry) (en : RemEntry) : Option Nat :=
   idx.findIdx? (fun e => e.g == en.g && e.attr == en.own)
@@ -200,5 +238,11 @@ def addCopy (st : RankState) (g : Int) (a : Nat) (loc : Nat) (known : List (Nat 
       match known.lookup x.1 with
       | some b => (x.1, insertEntry ⟨g, a, b⟩ x.2)
       | none => x }
+
+/-- `addCopy` on rank `p` of a world -/
+def addCopyAt (w : World) (p : Nat) (g : Int) (a : Nat) (loc : Nat) (known : List (Nat × Nat)) : World :=
+  match w[p]? with
+  | some st => w.set p (addCopy st g a loc known)
+  | none => w
 
 end DV.C13
